@@ -307,6 +307,7 @@ class BaseSubscription:
         "default_limit",
         "log",
         "auth_token",
+        "cancelled",
     )
 
     def __init__(
@@ -330,13 +331,29 @@ class BaseSubscription:
         self.default_limit = default_limit
         self.auth_token = auth_token
         self.log = log or storage.log
+        self.cancelled = False
 
     def prepare(self):
         return True
 
     def cancel(self):
+        self.cancelled = True
         if self.query_task:
             self.query_task.cancel()
+        # what is still queued for this subscription is not sent any more
+        # (the connection's queue is shared with its other subscriptions)
+        queue = self.queue
+        if queue is not None and hasattr(queue, "get_nowait"):
+            kept = []
+            while True:
+                try:
+                    item = queue.get_nowait()
+                except asyncio.QueueEmpty:
+                    break
+                if item[0] != self.sub_id:
+                    kept.append(item)
+            for item in kept:
+                queue.put_nowait(item)
 
     def start(self):
         self.query_task = asyncio.create_task(self.run_query())
@@ -346,6 +363,9 @@ class BaseSubscription:
 
     async def notify(self, event):
         # every time an event is added, all subscribers are notified.
+        if self.cancelled:
+            # closed or replaced while this notification was waiting for its turn
+            return
 
         with catchtime() as t:
             matched = self.check_event(event, self.filters)
